@@ -198,4 +198,43 @@ def run(chk):
             finally:
                 ad.exp_matrix = saved
                 hook.ACTIVE_CUTS.clear()
+    # ---- the iterated singlet kernel is the PATH-ORDERED product of its steps (what "composes up to the discretisation" rests on) -----------------------------
+    # exp_matrix_2D is replaced by its contract "some matrix X_j per call"; ensures: step j exponentiates the j-th interval counted from a0 and
+    # eko_iterate == X_K @ ... @ X_1 (later steps to the left), so two consecutive evolutions are the ordered product over the concatenated step list
+    fni = "eko.kernels.singlet:eko_iterate"
+    chk.under_contract(fni)
+    bsym = [T.var(f"beta{k}") for k in range(4)]
+    saved_exp = ad.exp_matrix_2D
+    try:
+        for n in (1, 2, 4):
+            for K in (1, 2, 3):
+                calls = []
+
+                def fake_exp(ln, calls=calls):
+                    X = symmat(f"X{len(calls) + 1}_", 2)
+                    calls.append(np.array(ln, dtype=object))
+                    return X, None, None, None, None
+
+                ad.exp_matrix_2D = fake_exp
+                tagi = f"C10.eko_iterate[order={n},iterations={K}]"
+                try:
+                    got = s.eko_iterate(G[:n].copy(), a1, a0, bsym[:n], (n, 0), K)
+                except Exception as e:  # noqa: BLE001
+                    chk.fail(f"{tagi}.no_exception", f"{type(e).__name__}: {e}", fn=fni, replay=rp)
+                    continue
+                steps = vnp.np_shim.geomspace(a0, a1, 1 + K)
+                ok_steps = len(calls) == K
+                want = vnp.eye(2)
+                for j in range(1, K + 1):
+                    want = symmat(f"X{j}_", 2) @ want
+                chk.ground(f"{tagi}.one_exponential_per_step", ok_steps, fn=fni, replay=rp, goal="exp_matrix_2D is called once per step", detail=f"{len(calls)} calls")
+                chk.eq_array(f"{tagi}.path_ordered_product", got, want, fn=fni, replay=rp, goal="eko_iterate == X_K @ ... @ X_1: the step reaching a1 acts last (stands to the left)")
+                for j, ln in enumerate(calls[:K], start=1):
+                    al_, ah_ = steps[j - 1], steps[j]
+                    h = (ah_ + al_) / 2
+                    spec_ln = sum((G[i] * h**i for i in range(n)), vnp.zeros((2, 2))) / sum((bsym[i] * h ** (i + 1) for i in range(n)), Q(0)) * (ah_ - al_)
+                    chk.eq_array(f"{tagi}.step{j}_is_the_interval_counted_from_a0", ln, spec_ln, fn=fni, replay=rp, ranges=RANGES,
+                                 goal="the j-th exponential is built on [a_(j-1), a_j] of geomspace(a0, a1): gamma(a_half)/beta(a_half) * (a_j - a_(j-1))")
+    finally:
+        ad.exp_matrix_2D = saved_exp
     chk.extra["exhaustive"] = True
